@@ -1,13 +1,15 @@
 /-
   Props/C07.lean — cutoff zeroes exactly the out-of-range elements and nothing else. PROPERTY THEOREMS ONLY.
   `x : CutoffIn` carries the distance matrix and the radius; `near x i j := x.d i j < x.cutoff`.
-  The distances themselves (`_calc_distances`, Niggli reduction) are NOT modelled: they are an input here.
+  The distance computation after the Niggli reduction IS modelled in exact arithmetic (Model/Dist.lean, last section);
+  the reduction itself (spglib) is trusted.
 -/
 import SymfcModel.Model.Cutoff
 import SymfcModel.Gen.Cutoff
 import SymfcModel.Gen.ApiCompute
 import SymfcModel.Lemmas.Cutoff
 import SymfcModel.Lemmas.Coverage
+import SymfcModel.Lemmas.Dist
 namespace Symfc.C07
 open Symfc
 
@@ -93,5 +95,66 @@ theorem covered_iff_pairwise_within_cutoff_O4 (c : Cell) (hwf : c.wf = true) (cu
     (t : List Nat) (hlen : t.length = 4) (hlt : ∀ e ∈ t, e < 3 * c.N) :
     covered ptr' (elemIdx c.N (c.atomicDecompr 4) t) ↔ Cov.ppqq t = false ∧ Cov.admissible cut t :=
   Cov.V3_covered c hwf cut hcut nBatch ptr' h t hlen hlt
+
+/-! ## the distances themselves (`FCCutoff._calc_distances` after the Niggli reduction, exact arithmetic on a grid) -/
+
+open Dist in
+/-- C07.d: the computed minimum-image distance is symmetric, non-negative, and zero from an atom to itself (positive
+    semidefinite Gram matrix of the reduced basis) — for ANY inputs, no reducedness needed. -/
+theorem computed_distances_are_symmetric_and_zero_on_the_diagonal {G : List (List Int)} (hG : PSD G) (S : Int)
+    {p q : List Int} (hp : p.length = 3) (hq : q.length = 3) :
+    minImage2 S G p q = minImage2 S G q p ∧ 0 ≤ minImage2 S G p q ∧ minImage2 S G p p = 0 :=
+  ⟨minImage2_symm S G p q, minImage2_nonneg hG S hp hq, minImage2_self hG S hp⟩
+
+open Dist in
+/-- C07.d / C10: writing atoms with integer offsets of their fractional coordinates does not change the computed
+    distance, PROVIDED no coordinate sits exactly on the rounding boundary ±1/2 … -/
+theorem computed_distances_ignore_integer_offsets (S : Int) (G : List (List Int)) {p q mp mq : List Int}
+    (hmp : mp.length = p.length) (hmq : mq.length = q.length)
+    (nbp : ∀ x ∈ p, 2 * (x % S) ≠ S) (nbq : ∀ x ∈ q, 2 * (x % S) ≠ S) :
+    minImage2 S G (shiftBy S p mp) (shiftBy S q mq) = minImage2 S G p q :=
+  minImage2_offsets S G hmp hmq nbp nbq
+
+open Dist in
+/-- … and the proviso is necessary for the algorithm as written (27 images after `x − rint(x)` with half-to-even
+    rounding): for a NON-reduced positive definite basis an offset of a boundary coordinate changes the result (1 → 5).
+    The code relies on the Niggli reduction to make the 27-image window sufficient; that reliance is the content of the
+    decidable hypothesis `WindowOK3` below, which the correspondence check evaluates on every real input. -/
+theorem offsets_matter_on_the_rounding_boundary_of_a_non_reduced_basis :
+    let S : Int := 2
+    let G : List (List Int) := [[5, 2, 0], [2, 2, 1], [0, 1, 1]]
+    PSD G ∧ shiftBy S [0, 1, 1] [0, 1, 1] = [0, 3, 3] ∧
+    minImage2 S G [0, 1, 1] [1, 1, 1] = 1 ∧ minImage2 S G [0, 3, 3] [1, 1, 1] = 5 :=
+  let h := minImage2_offsets_false
+  ⟨h.2.2.2.1, h.2.2.2.2.1, h.2.2.2.2.2.1, h.2.2.2.2.2.2.1⟩
+
+open Dist in
+/-- C07.d: when the 27-image window is sufficient (`WindowOK3`: it gives the same minimum as the 7³ window — decidable,
+    checked on the inputs), the computed distance is invariant under every lattice translation of the structure … -/
+theorem computed_distances_are_translation_invariant {S : Int} (hS : 0 < S) (G : List (List Int)) {ps : List (List Int)}
+    (hlen : ∀ p ∈ ps, p.length = 3) (hw : WindowOK3 S G ps = true)
+    {τ : Nat → Nat} {a : List Int} (hτ : TransPerm S ps τ a)
+    {i j : Nat} (hi : i < ps.length) (hj : j < ps.length) :
+    minImage2 S G (ps.getD (τ i) []) (ps.getD (τ j) []) = minImage2 S G (ps.getD i []) (ps.getD j []) :=
+  window_sufficient hS G hlen hw hτ hi hj
+
+open Dist in
+/-- … hence the cutoff input BUILT FROM THE COMPUTED DISTANCES satisfies `Cov.CutOK` — the hypothesis of every
+    coverage / cutoff theorem above and of C04, C10 — for every supercell whose translation permutations are induced
+    by grid translations: the symmetric, reflexive, translation-invariant nearness is no longer an assumption about an
+    input table but a theorem about the modelled distance code. -/
+theorem computed_nearness_satisfies_the_cutoff_hypotheses {S : Int} (hS : 0 < S) {G : List (List Int)} (hG : PSD G)
+    {ps : List (List Int)} (hlen : ∀ p ∈ ps, p.length = 3) (hw : WindowOK3 S G ps = true) {cut2 : Int}
+    (hcut : 0 < cut2) (c : Cell) (hN : c.N = ps.length)
+    (htr : ∀ l, l < c.nlp → ∃ a : List Int, TransPerm S ps (c.img l) a) :
+    Cov.CutOK c (cutoffInOf S G ps cut2) :=
+  cutOK_of_dist hS hG hlen hw hcut c hN htr
+
+open Dist in
+/-- non-vacuity: a sheared reduced cell with four atoms (two on the rounding boundary), S = 8 -/
+theorem computed_distances_example :
+    dist2Matrix 8 G8 ps8 = [[0, 64, 173, 157], [64, 0, 157, 173], [173, 157, 0, 64], [157, 173, 64, 0]] ∧
+    WindowOK3 8 G8 ps8 = true :=
+  ⟨example8_matrix, example8_window.1⟩
 
 end Symfc.C07
